@@ -5,7 +5,9 @@ cfg.skipf in LangDyn).  TLC enumerates every program of the `capture` profile (a
 reads / conditionally writes a captured variable, overwrites that are dead unless the callee
 reads them, code after `return`), the `captureif` profile (stores and the calls that read them in different
 basic blocks), the `trap` profile (unread declarations whose right-hand side
-can fail at run time) and the `scope` profile, with the reference result of each.
+can fail at run time) the `scope` and `deaddef` profiles and the `capturecases` family (callee effects on a variable
+owned by the script or an enclosing function, called from a dead statement in the same / another /
+a nested function, plain, under a condition, in a loop), with the reference result of each.
 Binding: every program runs through the real pipeline with the frame arena on, WITHOUT and WITH
 the optimisation plan the real resolver produced for it.
   - plan run vs reference (outputs, ending) when the reference is an oracle;
@@ -42,8 +44,9 @@ def run(tier):
     skipped_programs = 0
     skipped_stmts = 0
     unreachable_marked = 0
-    for module, env in profiles(tier):
-        r = le.generate(module, env=env, timeout=2400)
+    for module, env in profiles(tier) + [("GenCapCases", {})]:
+        r = le.generate(module, env=env, timeout=2400, cfg="lang/GenCapCases.cfg" if module == "GenCapCases" else "lang/MCGen.cfg",
+                        coverage=module != "GenCapCases")
         tally.add_tlc(module, r)
         judged = le.replay(r.records, modes=["nn", "fn", "fp"], ev=4, plan=True)
         tally.add(judged)
